@@ -23,7 +23,7 @@ from core import f2h, h2f
 RULE = ("one case = one collider (Box, Sphere, Capsule, Ellipsoid, Cylinder, Disk, Ellipse, Cone, MeshGraph with a small "
         "convex mesh, each possibly wrapped in one or two Margins) built at a pose plus a random sequence of "
         "update_pose / support_function / aabb / center / first_vertex / collider2origin / gjk(collider, fixed sphere) "
-        "calls, drawn from one PRNG; poses are fresh arrays or items of one C-contiguous (n,4,4) stack; lattice stream "
+        "calls, drawn from one PRNG; poses are fresh arrays, items of one C-contiguous (n,4,4) stack or arrays returned by a pytransform3d TransformManager; lattice stream "
         "(signed axis permutations, dyadic offsets/sizes/directions incl. ties and the zero direction: compared "
         "exactly), general stream (random rotations, sizes 1e-2..1e2, offsets to 1e3: compared at 1e-12*scale), "
         "malformed stream (Fortran-ordered / strided poses, strided directions and size arrays: compared on the error "
@@ -33,7 +33,17 @@ EXPLANATION = ("update_refines_fresh / cache_invariant / no_typeErr_contiguous_p
                "with the geometric kernels as parameters; this run executes that state machine (driver) on the same "
                "histories as the real classes in both engines and compares cached fields, layouts and ok/TypeError "
                "per call; independently every observation is compared with a freshly constructed collider")
-PARTIAL = {}
+PARTIAL = {
+    "update_refines_fresh (MeshGraph.support_function)":
+        "proved up to the hill-climbing start index (runFresh threads it); full equality with a fresh MeshGraph is "
+        "update_refines_fresh_startIndependent, conditional on the hill climb being start-independent, which is C03's "
+        "history-independence statement about mesh.hill_climb_mesh_extreme and is not proved here (the kernel is a "
+        "parameter of this model)",
+    "no_exception_contiguous_pose (MeshGraph)":
+        "conditional on HillClimbTotal (the hill climb returns an index into the vertex array: no KeyError/IndexError), "
+        "a C03/C19 fact about the kernel; unconditional for all other classes; no_typeErr_contiguous_pose is "
+        "unconditional for all classes",
+}
 ASSUMPTIONS = [
     "arrays are values: nobody writes into a pose array after passing it to update_pose/the constructor (most classes "
     "keep the caller's array itself; see the aliasing note in D3/Model/ColliderState.lean)",
@@ -106,7 +116,7 @@ def gen_pose(rng, stream, malformed=False):
     else:
         M[:3, :3] = rand_rot(rng)
         M[:3, 3] = np.array([rng.uniform(-1, 1) for _ in range(3)]) * 10 ** rng.uniform(-1, 3)
-    kind = rng.choice(["fresh", "stack", "stack"])
+    kind = rng.choice(["fresh", "stack", "stack", "tm"])
     if malformed and rng.random() < 0.6:
         kind = rng.choice(["fortran", "strided"])
     return {"M": M.tolist(), "kind": kind}
@@ -254,6 +264,13 @@ class PoseSource:
             a = self.stack[self.k]
             self.k += 1
             return a
+        if p["kind"] == "tm":
+            # what pytransform3d's TransformManager hands out for a two-edge path (identity second edge: same entries)
+            from pytransform3d.transform_manager import TransformManager
+            tm = TransformManager(check=False)
+            tm.add_transform("collider", "mid", M)
+            tm.add_transform("mid", "world", np.eye(4))
+            return tm.get_transform("collider", "world")
         if p["kind"] == "fortran":
             return np.asfortranarray(M)
         big = np.zeros((5, 5))
@@ -413,6 +430,7 @@ def impl_run(case):
             P = src.get(op["pose"])
             lastM = op["pose"]["M"]
             st["pose_lay"] = layout(P)
+            st["pose_same"] = bool(np.array_equal(np.asarray(P), np.array(lastM, dtype=float)))
             try:
                 c.update_pose(P)
             except Exception as e:  # noqa
@@ -556,7 +574,7 @@ def enc_shape(s):
             + [str(int(i)) for t in T for i in t])
 
 
-POSE_LAY = {"fresh": "C", "stack": "C", "fortran": "F", "strided": "A"}
+POSE_LAY = {"fresh": "C", "stack": "C", "tm": "C", "fortran": "F", "strided": "A"}
 
 
 def enc_case(case, res, engine, variant="now"):
@@ -666,6 +684,9 @@ def compare_with_model(ctx, case, res, engine, mout, owner, variant_note=""):
     for j, (k, sub) in enumerate(owner):
         op, st = case["ops"][k], steps[k + 1]
         status, val, dmp = split_step(msteps[j + 1])
+        if op["op"] == "u" and (st.get("pose_lay") != POSE_LAY[op["pose"]["kind"]] or not st.get("pose_same")):
+            return ("harness: pose source", "step %d: a pose of kind %s arrived with layout %s / same entries: %s"
+                    % (k, op["pose"]["kind"], st.get("pose_lay"), st.get("pose_same")))
         if sub is not None:
             call = st["calls"][sub]
             want = "err " + call["err"] if call["err"] else "ok"
@@ -870,12 +891,12 @@ def gen_cases(ctx, n, streams=("L", "G", "M"), weights=(0.4, 0.4, 0.2), with_gjk
 def correspondence(ctx):
     hull = {"hull": True}
     fixed = corpus() + corpus_malformed()
-    cases = fixed + gen_cases(ctx, ctx.budget(140, 3000)) + [hull]
+    cases = fixed + gen_cases(ctx, ctx.budget(260, 8000)) + [hull]
     # interpreted engine, in-process
     res_i = [impl_run(c) for c in cases]
     process(ctx, cases, res_i, "interp")
     # JIT engine: one subprocess (cold numba cache: ~40 s compile) — the TypeError class only exists here
-    njit = ctx.budget(90, 1500)
+    njit = ctx.budget(170, 4000)
     jcases = cases[:len(fixed) + njit] + [hull]
     res_j = run_jit(ctx, jcases)
     if res_j is not None:
@@ -910,7 +931,7 @@ def box_lattice(ctx):
 def search(ctx):
     """fresh-object differential on longer histories, every class, both engines (in-domain streams only)"""
     boost = 3 if ctx.extra.get("search_boost") else 1
-    n = ctx.budget(60, 2500) * boost
+    n = ctx.budget(120, 5000) * boost
     cases = []
     for i in range(n):
         stream = "L" if ctx.rng.random() < 0.4 else "G"
